@@ -17,7 +17,13 @@ nothing is evaluated:
                         with straight-line control flow at its top level and at most one trailing return -> the helper's
                         statements with parameters renamed to the arguments and locals made unique
 
-  const_getattr         `getattr(x, "name")` -> `x.name`
+  inline_guard_calls    `if not self._stage(a): return` with a helper whose every path ends in `return <constant>` -> the helper's decision
+                        tree with the caller's arms in place of its returns (early returns moved into tail position first)
+
+  namedtuple_rows       `Row(1, "x")` / `Row(code=1, text="x")` of a namedtuple type of the module -> the tuple display `(1, "x")` (field names
+                        kept on the node; `<that display>.text` -> `"x"` once a loop over the table is unrolled)
+  const_getattr         `getattr(x, "name")` -> `x.name`;  statement `setattr(x, "name", v)` -> `x.name = v`;
+                        statement `X.update({"a": u, ..})` -> `X["a"] = u; ..`
 
 A transformation that cannot be applied safely (re-assigned names, break/continue, *args, generators, early returns) leaves the
 code as it is; the rules then see the original spelling."""
@@ -146,7 +152,36 @@ def _top_level_jumps(stmts) -> bool:
 def _literal_seq(node):
     if isinstance(node, (ast.Tuple, ast.List)) and 1 <= len(node.elts) <= 24 and not any(isinstance(e, ast.Starred) for e in node.elts):
         return node
-    return None
+    return _zipped_literal(node)
+
+
+def _zipped_literal(node):
+    """`zip(<literal>, <literal>, ..)` / `enumerate(<literal>[, <int>])` over literal sequences is the literal sequence of the rows
+    (zip stops at the shortest).  The result is a one-shot iterator: a local bound to it may stand for the rows only where it
+    is read once (see _unroll_block)."""
+    if not (isinstance(node, ast.Call) and isinstance(node.func, ast.Name) and not node.keywords and node.args):
+        return None
+    if node.func.id == "zip":
+        seqs = [a if isinstance(a, (ast.Tuple, ast.List)) and not any(isinstance(e, ast.Starred) for e in a.elts) else None for a in node.args]
+        lits = [q for q in seqs if q is not None]
+        # a zipped operand that is not a display but a plain name / attribute / subscript (a list, a slice of one) contributes its
+        # elements by position: zip(("a", "b"), X) pairs "a" with X[0], "b" with X[1] (X is at least as long wherever the code is meant to
+        # pair every name)
+        others = [a for a, q in zip(node.args, seqs) if q is None]
+        if not lits or not all(isinstance(a, (ast.Name, ast.Attribute, ast.Subscript)) and _pure(a) for a in others) or not 1 <= min(len(q.elts) for q in lits) <= 24:
+            return None
+        n = min(len(q.elts) for q in lits)
+        rows = [ast.Tuple(elts=[q.elts[i] if q is not None else ast.Subscript(value=copy.deepcopy(a), slice=ast.Constant(value=i), ctx=ast.Load())
+                                for a, q in zip(node.args, seqs)], ctx=ast.Load()) for i in range(n)]
+    elif node.func.id == "enumerate" and len(node.args) <= 2:
+        q = node.args[0]
+        start = node.args[1].value if len(node.args) == 2 and isinstance(node.args[1], ast.Constant) and type(node.args[1].value) is int else (0 if len(node.args) == 1 else None)
+        if start is None or not isinstance(q, (ast.Tuple, ast.List)) or any(isinstance(e, ast.Starred) for e in q.elts) or not 1 <= len(q.elts) <= 24:
+            return None
+        rows = [ast.Tuple(elts=[ast.Constant(value=start + i), e], ctx=ast.Load()) for i, e in enumerate(q.elts)]
+    else:
+        return None
+    return ast.fix_missing_locations(ast.copy_location(ast.Tuple(elts=rows, ctx=ast.Load()), node))
 
 
 _CONST_CTORS = {"re.compile"}
@@ -349,8 +384,9 @@ def _static_comps(st, lits):
     return st
 
 
-def _unroll_block(stmts, lits):
-    """lits: name -> literal sequence node still valid at this point"""
+def _unroll_block(stmts, lits, once=frozenset()):
+    """lits: name -> literal sequence node still valid at this point;  once: the locals read exactly once in the function (only
+    those may stand for a one-shot zip / enumerate iterator)"""
     out = []
     lits = dict(lits)
     for st in stmts:
@@ -367,7 +403,7 @@ def _unroll_block(stmts, lits):
                     if un is None:
                         un = _unroll_one(st, seq)
                     if un is not None:
-                        un = _unroll_block(un, lits)
+                        un = _unroll_block(un, lits, once)
                         for u in un:
                             ast.fix_missing_locations(u)
                         out.extend(un)
@@ -378,17 +414,18 @@ def _unroll_block(stmts, lits):
         for fld in ("body", "orelse", "finalbody"):
             b = getattr(st, fld, None)
             if isinstance(b, list) and b and isinstance(b[0], ast.stmt) and not isinstance(st, (ast.FunctionDef, ast.ClassDef, ast.AsyncFunctionDef)):
-                setattr(st, fld, _unroll_block(b, surviving))
+                setattr(st, fld, _unroll_block(b, surviving, once))
         if isinstance(st, ast.Try):
             for h in st.handlers:
-                h.body = _unroll_block(h.body, surviving)
+                h.body = _unroll_block(h.body, surviving, once)
         # update the table
         for k in list(lits):
             if k in inner_st or (set().union(*[_loaded(e) for e in lits[k].elts]) & inner_st):
                 del lits[k]
         if isinstance(st, ast.Assign) and len(st.targets) == 1 and isinstance(st.targets[0], ast.Name):
             seq = _literal_seq(st.value)
-            if seq is not None and all(_pure(e, lambdas=True) for e in seq.elts) and st.targets[0].id not in set().union(*[_loaded(e) for e in seq.elts]):
+            if seq is not None and all(_pure(e, lambdas=True) for e in seq.elts) and st.targets[0].id not in set().union(*[_loaded(e) for e in seq.elts]) \
+                    and (isinstance(st.value, (ast.Tuple, ast.List)) or st.targets[0].id in once):
                 lits[st.targets[0].id] = seq
         out.append(st)
     return out
@@ -402,7 +439,7 @@ def module_tables(mod: ast.Module) -> dict:
         for n in ast.walk(st) if not isinstance(st, (ast.FunctionDef, ast.AsyncFunctionDef, ast.ClassDef)) else []:
             if isinstance(n, ast.Name) and isinstance(n.ctx, (ast.Store, ast.Del)):
                 count[n.id] = count.get(n.id, 0) + 1
-        if isinstance(st, ast.Assign) and len(st.targets) == 1 and isinstance(st.targets[0], ast.Name):
+        if isinstance(st, ast.Assign) and len(st.targets) == 1 and isinstance(st.targets[0], ast.Name) and isinstance(st.value, (ast.Tuple, ast.List)):
             seq = _literal_seq(st.value)
             if seq is not None and all(_pure(e) for e in seq.elts):
                 cand[st.targets[0].id] = seq
@@ -432,7 +469,11 @@ def unroll_static_loops(func, tables: dict | None = None):
         own = {p.arg for p in a.posonlyargs + a.args + a.kwonlyargs} | ({a.vararg.arg} if a.vararg else set()) | ({a.kwarg.arg} if a.kwarg else set()) \
             | _stored(func.body)
         lits = {k: v for k, v in tables.items() if k not in own and not (set().union(*[_loaded(e) for e in v.elts]) & own)}
-    func.body = _unroll_block(func.body, lits)
+    reads = {}
+    for n in ast.walk(func):
+        if isinstance(n, ast.Name) and isinstance(n.ctx, ast.Load):
+            reads[n.id] = reads.get(n.id, 0) + 1
+    func.body = _unroll_block(func.body, lits, frozenset(k for k, c in reads.items() if c == 1))
     return func
 
 
@@ -559,6 +600,83 @@ def inline_stmts(callee, call, recv=None):
     return pre + body, ret
 
 
+def _own_level(stmts, kinds) -> bool:
+    """is there a statement of one of `kinds` (Break / Continue) that belongs to the loop whose body `stmts` is?"""
+    def rec(node):
+        for ch in ast.iter_child_nodes(node):
+            if isinstance(ch, kinds):
+                return True
+            if isinstance(ch, (ast.For, ast.While, ast.FunctionDef, ast.AsyncFunctionDef, ast.Lambda, ast.ClassDef)):
+                if any(isinstance(x, kinds) for s in getattr(ch, "orelse", []) for x in ast.walk(s)):
+                    return True
+                continue
+            if rec(ch):
+                return True
+        return False
+    return any(isinstance(s, kinds) or rec(s) for s in stmts)
+
+
+def inline_generator_loop(callee, loop: ast.For, recv=None):
+    """`for T in gen(args): BODY` with `gen` a generator function that has exactly one `yield E` statement  ->  the statements of `gen`
+    (parameters renamed to the arguments, locals made unique, as inline_stmts does) with that statement replaced by `T = E; BODY`.
+    A generator runs interleaved with its consumer: the consumer's body executes exactly where the `yield` stands, once per value, so
+    the loop nest of the producer with the consumer's body inside is the same computation in the same order.  Refused (-> None) when
+    the equivalence needs more than that: several yields / yield from / return in the producer, a yield inside try / with, a
+    `break` or `else` on the consumer loop, or a consumer `continue` where the yield is not the last statement of the producer's
+    innermost loop."""
+    if not isinstance(callee, ast.FunctionDef) or loop.orelse or not isinstance(loop.iter, ast.Call):
+        return None
+    a = callee.args
+    if a.vararg or a.kwarg or a.posonlyargs:
+        return None
+    own = []
+
+    def scan(node, inside):
+        """-> False when the producer has a shape that is not handled"""
+        for ch in ast.iter_child_nodes(node):
+            if isinstance(ch, (ast.FunctionDef, ast.AsyncFunctionDef, ast.Lambda, ast.ClassDef)):
+                continue
+            if isinstance(ch, (ast.YieldFrom, ast.Await, ast.Global, ast.Nonlocal, ast.Return)):
+                return False
+            if isinstance(ch, ast.Yield):
+                own.append((ch, inside))
+            if not scan(ch, inside or isinstance(ch, (ast.Try, ast.With, ast.AsyncWith))):
+                return False
+        return True
+    if not scan(callee, False) or len(own) != 1 or own[0][1] or own[0][0].value is None:
+        return None
+    if _own_level(loop.body, (ast.Break,)):
+        return None
+    res = inline_stmts(callee, loop.iter, recv)
+    if res is None:
+        return None
+    body, ret = res
+    # the yield must be a whole statement; find the list that holds it
+    holder = []
+
+    def find(stmts, in_loop_tail):
+        for i, st in enumerate(stmts):
+            if isinstance(st, ast.Expr) and isinstance(st.value, ast.Yield):
+                holder.append((stmts, i, in_loop_tail and i == len(stmts) - 1))
+                continue
+            for fld in ("body", "orelse", "finalbody"):
+                b = getattr(st, fld, None)
+                if isinstance(b, list) and b and isinstance(b[0], ast.stmt) and not isinstance(st, (ast.FunctionDef, ast.ClassDef, ast.AsyncFunctionDef)):
+                    find(b, fld == "body" and isinstance(st, (ast.For, ast.While)))
+    find(body, False)
+    if len(holder) != 1:
+        return None                       # the yield is an operand (`x = yield e`): not a plain producer
+    stmts, i, last_in_loop = holder[0]
+    if _own_level(loop.body, (ast.Continue,)) and not last_in_loop:
+        return None
+    bind = ast.Assign(targets=[loop.target], value=stmts[i].value.value)
+    ast.copy_location(bind, loop)
+    stmts[i:i + 1] = [bind] + list(loop.body)
+    for b in body:
+        ast.fix_missing_locations(b)
+    return body
+
+
 def inline_stmt_calls(func, resolve, max_depth: int = 3):
     """resolve(call) -> (callee FunctionDef, receiver expr | None) | None.  Whole-statement calls are replaced by the callee's
     statements."""
@@ -581,6 +699,16 @@ def inline_stmt_calls(func, resolve, max_depth: int = 3):
             if isinstance(st, ast.Try):
                 for h in st.handlers:
                     h.body = expand(h.body, depth)
+            if isinstance(st, ast.For) and isinstance(st.iter, ast.Call) and depth < max_depth:
+                # a loop over a generator helper: the producer's statements with the consumer's body where the yield stands
+                r = resolve(st.iter)
+                if r is not None and r[0] is not func:
+                    new = inline_generator_loop(r[0], st, r[1])
+                    if new is not None:
+                        for b in new:
+                            ast.copy_location(b, st) if not hasattr(b, "lineno") else None
+                        out.extend(expand(new, depth + 1))
+                        continue
             c = value_of(st)
             if isinstance(c, ast.Call) and depth < max_depth:
                 r = resolve(c)
@@ -634,6 +762,158 @@ def inline_stmt_calls(func, resolve, max_depth: int = 3):
         return out
     func.body = expand(func.body, 0)
     return func
+
+
+# ------------------------------------------------------------------------------------- guard helpers (stages that report success)
+
+def _has_return(node) -> bool:
+    """a `return` that belongs to the function `node` is a statement of (not to a def / lambda nested in it)"""
+    todo = [node]
+    while todo:
+        n = todo.pop()
+        if isinstance(n, ast.Return):
+            return True
+        for ch in ast.iter_child_nodes(n):
+            if not isinstance(ch, (ast.FunctionDef, ast.AsyncFunctionDef, ast.Lambda, ast.ClassDef)):
+                todo.append(ch)
+    return False
+
+
+def _tailify(stmts, budget=None):
+    """The statement list with every `return` moved into tail position: the statements that follow an `if` with a returning arm are
+    pushed into its arms that fall through (`if c: ..; return X` + REST  ->  `if c: ..; return X  else: REST`).  None when a return
+    sits inside a loop / with / try (not a decision tree) or the result would grow unreasonably."""
+    budget = budget if budget is not None else [400]
+    out = []
+    for i, st in enumerate(stmts):
+        if isinstance(st, ast.Return):
+            return out + [st]                      # what follows is dead
+        if isinstance(st, ast.If) and _has_return(st):
+            rest = stmts[i + 1:]
+            arms = []
+            for arm in (st.body, st.orelse):
+                falls = not (arm and isinstance(arm[-1], (ast.Return, ast.Raise)))
+                ext = list(arm) + ([copy.deepcopy(r) for r in rest] if falls else [])
+                budget[0] -= sum(1 for r in rest for _ in ast.walk(r)) if falls else 0
+                if budget[0] < 0:
+                    return None
+                t = _tailify(ext, budget)
+                if t is None:
+                    return None
+                arms.append(t)
+            new = ast.If(test=st.test, body=arms[0] or [ast.Pass()], orelse=arms[1])
+            return out + [ast.copy_location(new, st)]
+        if _has_return(st):
+            return None
+        out.append(st)
+    return out
+
+
+def _guard_helper(callee) -> bool:
+    """a helper that reports how it went: every return gives a literal constant (True / False / None ..), no generators / *args"""
+    if not isinstance(callee, ast.FunctionDef):
+        return False
+    a = callee.args
+    if a.vararg or a.kwarg or a.posonlyargs:
+        return False
+    rets = []
+    todo = list(callee.body)
+    while todo:
+        n = todo.pop()
+        if isinstance(n, (ast.Yield, ast.YieldFrom, ast.Global, ast.Nonlocal, ast.Await)):
+            return False
+        if isinstance(n, ast.Return):
+            rets.append(n)
+        for ch in ast.iter_child_nodes(n):
+            if not isinstance(ch, (ast.FunctionDef, ast.AsyncFunctionDef, ast.Lambda, ast.ClassDef)):
+                todo.append(ch)
+    return bool(rets) and all(r.value is None or isinstance(r.value, ast.Constant) for r in rets) \
+        and len({bool(r.value.value) if r.value is not None else False for r in rets}) == 2
+
+
+def inline_guard_calls(func, resolve, max_depth: int = 2):
+    """Stage helpers.  `if [not] self._stage(a): A [else: B]` where the helper ends every path with `return <constant>` is the helper's
+    decision tree with A put where it returns a value that makes the test true and B (or nothing: control falls through to the
+    statements after the `if`) where it makes it false:
+
+        if not self._write_file(path):          target = path / "f"                     (helper body, parameters bound)
+            return                        ->    if exists(target): warn(); return       (`return False` -> A)
+        <next stage>                            else: write(target)                     (`return True`  -> fall through)
+                                                <next stage>
+
+    Early returns of the helper are first moved into tail position (_tailify).  Helpers with a return inside a loop / with / try
+    stay calls."""
+    def expand(stmts, depth):
+        out = []
+        for st in stmts:
+            for fld in ("body", "orelse", "finalbody"):
+                b = getattr(st, fld, None)
+                if isinstance(b, list) and b and isinstance(b[0], ast.stmt) and not isinstance(st, (ast.FunctionDef, ast.ClassDef, ast.AsyncFunctionDef)):
+                    setattr(st, fld, expand(b, depth))
+            if isinstance(st, ast.Try):
+                for h in st.handlers:
+                    h.body = expand(h.body, depth)
+            if isinstance(st, ast.If) and depth < max_depth:
+                neg = isinstance(st.test, ast.UnaryOp) and isinstance(st.test.op, ast.Not)
+                call = st.test.operand if neg else st.test
+                r = resolve(call) if isinstance(call, ast.Call) else None
+                if r is not None and r[0] is not func and _guard_helper(r[0]):
+                    res = _renamed_body(r[0], call, r[1])
+                    tail = _tailify(res[1] + [ast.Return(value=ast.Constant(value=None))]) if res is not None else None
+                    if tail is not None:
+                        def put(ss):
+                            new = []
+                            for s_ in ss:
+                                if isinstance(s_, ast.Return):
+                                    truth = bool(s_.value.value) if s_.value is not None else False
+                                    new.extend(copy.deepcopy(x) for x in (st.body if truth != neg else st.orelse))
+                                elif isinstance(s_, ast.If):
+                                    s_.body = put(s_.body) or [ast.Pass()]
+                                    s_.orelse = put(s_.orelse)
+                                    new.append(s_)
+                                else:
+                                    new.append(s_)
+                            return new
+                        body = res[0] + put(tail)
+                        for b in body:
+                            ast.copy_location(b, st) if not hasattr(b, "lineno") else None
+                            ast.fix_missing_locations(b)
+                        out.extend(expand(body, depth + 1))
+                        continue
+            out.append(st)
+        return out
+    func.body = expand(func.body, 0)
+    return func
+
+
+def _renamed_body(callee, call, recv=None):
+    """(argument bindings, the callee's statements -- returns kept -- with parameters renamed to the arguments and locals made
+    unique), as inline_stmts does for helpers with one trailing return; None when the call cannot be bound"""
+    decs = {ast.unparse(d) for d in callee.decorator_list}
+    if decs - {"staticmethod", "classmethod"}:
+        return None
+    skip = recv is not None and "staticmethod" not in decs
+    given = _bind_args(callee, call, skip)
+    if given is None:
+        return None
+    k = next(_counter)
+    ren, pre = {}, []
+    if skip:
+        if not isinstance(recv, ast.Name):
+            return None
+        ren[callee.args.args[0].arg] = recv.id
+    body = copy.deepcopy(_callee_body(callee))
+    stored = {n.id for b in body for n in ast.walk(b) if isinstance(n, ast.Name) and isinstance(n.ctx, (ast.Store, ast.Del))}
+    for p, e in given.items():
+        if isinstance(e, ast.Name) and p not in stored:
+            ren[p] = e.id
+        else:
+            fresh = f"_inl{k}_{p}"
+            ren[p] = fresh
+            pre.append(ast.Assign(targets=[ast.Name(id=fresh, ctx=ast.Store())], value=copy.deepcopy(e)))
+    for l in {n.id for b in body for n in ast.walk(b) if isinstance(n, ast.Name) and isinstance(n.ctx, ast.Store)} - set(ren):
+        ren[l] = f"_inl{k}_{l}"
+    return pre, [_Rename(ren).visit(b) for b in body]
 
 
 class _ReplaceNode(ast.NodeTransformer):
@@ -880,6 +1160,10 @@ def expand_helpers(func, resolve):
         return out
     func.body = prepare(func.body)
     inline_stmt_calls(func, resolve)
+    before = len(func.body), sum(1 for _ in ast.walk(func))
+    inline_guard_calls(func, resolve)
+    if (len(func.body), sum(1 for _ in ast.walk(func))) != before:
+        inline_stmt_calls(func, resolve)          # procedures called from the stages that were put back
     func.body = [_ExprInliner(resolve, func).visit(st) for st in func.body]
     ast.fix_missing_locations(func)
     return func
@@ -922,8 +1206,67 @@ def _drop_dead_tables(func):
     return func
 
 
+# ------------------------------------------------------------------------------------------------- namedtuple rows
+
+def namedtuple_fields(mod: ast.Module) -> dict:
+    """name -> [field, ..] of the namedtuple types a module defines at its top level (or one class level down):
+    `X = namedtuple("X", "a b")` / `("a", "b")` / `["a", "b"]`, `class X(NamedTuple): a: T; b: T`"""
+    out = {}
+
+    def scan(body):
+        for st in body:
+            if isinstance(st, ast.Assign) and len(st.targets) == 1 and isinstance(st.targets[0], ast.Name) and isinstance(st.value, ast.Call) \
+                    and ast.unparse(st.value.func) in ("namedtuple", "collections.namedtuple") and len(st.value.args) == 2 and not st.value.keywords:
+                f = st.value.args[1]
+                if isinstance(f, ast.Constant) and isinstance(f.value, str):
+                    out[st.targets[0].id] = f.value.replace(",", " ").split()
+                elif isinstance(f, (ast.Tuple, ast.List)) and all(isinstance(e, ast.Constant) and isinstance(e.value, str) for e in f.elts):
+                    out[st.targets[0].id] = [e.value for e in f.elts]
+            elif isinstance(st, ast.ClassDef) and any(ast.unparse(b) in ("NamedTuple", "typing.NamedTuple") for b in st.bases):
+                fs = [b.target.id for b in st.body if isinstance(b, ast.AnnAssign) and isinstance(b.target, ast.Name)]
+                if fs and not any(isinstance(b, ast.AnnAssign) and b.value is not None for b in st.body):
+                    out[st.name] = fs
+            elif isinstance(st, ast.ClassDef) and body is mod.body:
+                scan(st.body)
+    scan(mod.body)
+    return out
+
+
+def namedtuple_rows(mod: ast.Module) -> ast.Module:
+    """A namedtuple built with all its fields given -- `Law(1, "a * zeta")`, `Law(code=1, text=..)` -- is the tuple of those values with names
+    for its positions: the call is replaced by the tuple display (tagged with the field names), so that a table of such rows is a
+    literal table (unrolled like any other) and `row.text`, once `row` has been replaced by the row's display, is the element
+    (_ConstGetattr).  Values only: nothing else about the type is used."""
+    fields = namedtuple_fields(mod)
+    if not fields:
+        return mod
+
+    class Rows(ast.NodeTransformer):
+        def visit_Call(self, n):
+            self.generic_visit(n)
+            if isinstance(n.func, ast.Name) and n.func.id in fields and not any(isinstance(a, ast.Starred) for a in n.args) and all(k.arg for k in n.keywords):
+                fs = fields[n.func.id]
+                given = dict(zip(fs, n.args))
+                if len(n.args) <= len(fs) and not any(k.arg in given or k.arg not in fs for k in n.keywords):
+                    given.update({k.arg: k.value for k in n.keywords})
+                    if len(given) == len(fs):
+                        t = ast.copy_location(ast.Tuple(elts=[given[f] for f in fs], ctx=ast.Load()), n)
+                        t._nt_fields = list(fs)
+                        return t
+            return n
+    return ast.fix_missing_locations(Rows().visit(mod))
+
+
 class _ConstGetattr(ast.NodeTransformer):
-    """`getattr(x, "name")` (two arguments, literal identifier) is the attribute access `x.name`"""
+    """`getattr(x, "name")` (two arguments, literal identifier) is the attribute access `x.name`;  `<namedtuple row display>.field` is
+    the element at the field's position"""
+
+    def visit_Attribute(self, n):
+        self.generic_visit(n)
+        fs = getattr(n.value, "_nt_fields", None)
+        if fs and isinstance(n.value, ast.Tuple) and isinstance(n.ctx, ast.Load) and n.attr in fs and len(fs) == len(n.value.elts):
+            return ast.copy_location(n.value.elts[fs.index(n.attr)], n)
+        return n
 
     def visit_Call(self, n):
         self.generic_visit(n)
@@ -932,9 +1275,69 @@ class _ConstGetattr(ast.NodeTransformer):
             return ast.copy_location(ast.Attribute(value=n.args[0], attr=n.args[1].value, ctx=ast.Load()), n)
         return n
 
+    def visit_Expr(self, n):
+        # `setattr(x, "name", v)` as a statement (the name may come from a row of an unrolled table) is the store `x.name = v`
+        self.generic_visit(n)
+        c = n.value
+        if isinstance(c, ast.Call) and isinstance(c.func, ast.Name) and c.func.id == "setattr" and len(c.args) == 3 and not c.keywords \
+                and isinstance(c.args[1], ast.Constant) and isinstance(c.args[1].value, str) and c.args[1].value.isidentifier() \
+                and not any(isinstance(a, ast.Starred) for a in c.args):
+            return ast.copy_location(ast.Assign(targets=[ast.Attribute(value=c.args[0], attr=c.args[1].value, ctx=ast.Store())], value=c.args[2]), n)
+        return n
+
+
+class _ConstSetattr(ast.NodeTransformer):
+    """the statement `setattr(x, "name", v)` (literal identifier) is the assignment `x.name = v`"""
+
+    def visit_Expr(self, st):
+        n = st.value
+        if isinstance(n, ast.Call) and isinstance(n.func, ast.Name) and n.func.id == "setattr" and len(n.args) == 3 and not n.keywords \
+                and isinstance(n.args[1], ast.Constant) and isinstance(n.args[1].value, str) and n.args[1].value.isidentifier() \
+                and not any(isinstance(a, ast.Starred) for a in n.args):
+            new = ast.Assign(targets=[ast.Attribute(value=n.args[0], attr=n.args[1].value, ctx=ast.Store())], value=n.args[2])
+            return ast.copy_location(new, st)
+        return st
+
+    visit_FunctionDef = visit_AsyncFunctionDef = visit_ClassDef = visit_Lambda = lambda self, n: n
+
+
+class _UpdateStores(ast.NodeTransformer):
+    """the statement `X.update({"a": u, "b": v})` -- a dict display with literal string keys, X a plain name / attribute / subscript
+    chain that the values do not read -- is the run of element stores `X["a"] = u; X["b"] = v` (a mapping's update assigns key by key,
+    in order)"""
+
+    def visit_Expr(self, st):
+        n = st.value
+        if isinstance(n, ast.Call) and isinstance(n.func, ast.Attribute) and n.func.attr == "update" and len(n.args) == 1 and not n.keywords \
+                and isinstance(n.args[0], ast.Dict) and n.args[0].keys and all(isinstance(k, ast.Constant) and isinstance(k.value, str) for k in n.args[0].keys) \
+                and _pure(n.func.value):
+            base = n.func.value
+            root = base
+            while isinstance(root, (ast.Attribute, ast.Subscript)):
+                root = root.value
+            if isinstance(root, ast.Name) and not any(root.id in _loaded(v) for v in n.args[0].values):
+                out = []
+                for k, v in zip(n.args[0].keys, n.args[0].values):
+                    tgt = ast.Subscript(value=copy.deepcopy(base), slice=k, ctx=ast.Store())
+                    out.append(ast.fix_missing_locations(ast.copy_location(ast.Assign(targets=[tgt], value=v), v)))
+                return out
+        return st
+
+    visit_FunctionDef = visit_AsyncFunctionDef = visit_ClassDef = visit_Lambda = lambda self, n: n
+
 
 def const_getattr(node):
-    return ast.fix_missing_locations(_ConstGetattr().visit(node))
+    """getattr / setattr with a literal attribute name are the attribute read / the attribute assignment; a mapping update with a
+    literal display is the run of element stores"""
+    node = _ConstGetattr().visit(node)
+    if isinstance(node, (ast.FunctionDef, ast.AsyncFunctionDef)):
+        for tr in (_ConstSetattr(), _UpdateStores()):
+            body = []
+            for st in node.body:
+                r = tr.visit(st)
+                body.extend(r if isinstance(r, list) else [r])
+            node.body = body
+    return ast.fix_missing_locations(node)
 
 
 # ------------------------------------------------------------------------------------------------ class-level constants
@@ -1262,9 +1665,609 @@ def index_loops_to_enumerate(func):
     return func
 
 
+# ------------------------------------------------------------------------------------------- bound-method aliases
+
+def inline_method_aliases(func):
+    """`g = a.b.get` (a plain attribute chain on a name, bound once at the top level of the function, the names of the chain never
+    re-bound in the function) and afterwards only CALLED (`g(x)`): every call is the method call `a.b.get(x)` it abbreviates.  Hoisting
+    an attribute lookup changes nothing a rule is about; the rules see the receiver again."""
+    cands = {}
+    for i, st in enumerate(func.body):
+        if isinstance(st, ast.Assign) and len(st.targets) == 1 and isinstance(st.targets[0], ast.Name) and isinstance(st.value, ast.Attribute):
+            b = st.value
+            while isinstance(b, ast.Attribute):
+                b = b.value
+            if isinstance(b, ast.Name):
+                cands.setdefault(st.targets[0].id, []).append((i, st, b.id))
+    if not cands:
+        return func
+    rebound = {}
+    for n in ast.walk(func):
+        if isinstance(n, ast.Name) and isinstance(n.ctx, (ast.Store, ast.Del)):
+            rebound[n.id] = rebound.get(n.id, 0) + 1
+        elif isinstance(n, (ast.FunctionDef, ast.AsyncFunctionDef, ast.ClassDef)) and n is not func:
+            rebound[n.name] = rebound.get(n.name, 0) + 1
+    params = {a.arg for a in func.args.posonlyargs + func.args.args + func.args.kwonlyargs}
+    dead = []
+    for name, lst in cands.items():
+        if len(lst) != 1 or rebound.get(name, 0) != 1 or name in params:
+            continue
+        i, st, base = lst[0]
+        if base in rebound:
+            continue                      # the receiver is a local / a re-bound parameter: it may change between the alias and a call
+        loads = [n for n in ast.walk(func) if isinstance(n, ast.Name) and n.id == name and isinstance(n.ctx, ast.Load)]
+        calls = [n for n in ast.walk(func) if isinstance(n, ast.Call) and isinstance(n.func, ast.Name) and n.func.id == name]
+        if not loads or len(loads) != len(calls):
+            continue
+        # every use comes after the binding: none inside the statements before it
+        if any(isinstance(n, ast.Name) and n.id == name for s_ in func.body[:i] for n in ast.walk(s_)):
+            continue
+        # the chain's intermediate attributes must not be stored in the function (self.a = .. between alias and call)
+        chain_attrs = set()
+        b = st.value.value
+        while isinstance(b, ast.Attribute):
+            chain_attrs.add(b.attr)
+            b = b.value
+        if any(isinstance(n, ast.Attribute) and isinstance(n.ctx, (ast.Store, ast.Del)) and n.attr in chain_attrs for n in ast.walk(func)):
+            continue
+        for c in calls:
+            c.func = ast.copy_location(copy.deepcopy(st.value), c.func)
+        dead.append(st)
+    func.body = [s_ for s_ in func.body if not any(s_ is d for d in dead)] or [ast.Pass()]
+    ast.fix_missing_locations(func)
+    return func
+
+
+# ------------------------------------------------------------------------------------------- loop fission over a concatenation
+
+_VIEW_FUNCS = {"zip", "repeat", "itertools.repeat", "enumerate", "list", "tuple", "range", "len", "reversed", "chain", "itertools.chain"}
+
+
+def _view_pure(e) -> bool:
+    """an expression that only re-reads its operands (names, attributes, constants, displays, zip/repeat/enumerate/.. of such):
+    evaluating it a little later, or twice, gives the same sequence as long as the names it reads are not re-bound or mutated"""
+    if isinstance(e, (ast.Name, ast.Constant)):
+        return True
+    if isinstance(e, ast.Attribute):
+        return _view_pure(e.value)
+    if isinstance(e, (ast.Tuple, ast.List)):
+        return all(_view_pure(x.value if isinstance(x, ast.Starred) else x) for x in e.elts)
+    if isinstance(e, ast.BinOp) and isinstance(e.op, ast.Add):
+        return _view_pure(e.left) and _view_pure(e.right)
+    if isinstance(e, ast.Call) and ast.unparse(e.func) in _VIEW_FUNCS and not e.keywords:
+        return all(not isinstance(a, ast.Starred) and _view_pure(a) for a in e.args)
+    return False
+
+
+def _concat_parts(e):
+    """[A, B, ..] when `e` is the concatenation chain(A, B, ..) / A + B / [*A, *B] (possibly inside list(..) / tuple(..)), else None"""
+    if isinstance(e, ast.Call) and isinstance(e.func, ast.Name) and e.func.id in ("list", "tuple") and len(e.args) == 1 and not e.keywords:
+        return _concat_parts(e.args[0])
+    if isinstance(e, ast.Call) and ast.unparse(e.func) in ("chain", "itertools.chain") and len(e.args) >= 2 and not e.keywords \
+            and not any(isinstance(a, ast.Starred) for a in e.args):
+        return list(e.args)
+    if isinstance(e, (ast.List, ast.Tuple)) and len(e.elts) >= 2 and all(isinstance(x, ast.Starred) for x in e.elts):
+        return [x.value for x in e.elts]
+    if isinstance(e, ast.BinOp) and isinstance(e.op, ast.Add):
+        l, r = _concat_parts(e.left), _concat_parts(e.right)
+        if l is not None or r is not None or all(isinstance(x, (ast.Name, ast.List, ast.ListComp, ast.Call)) for x in (e.left, e.right)):
+            return (l or [e.left]) + (r or [e.right])
+    return None
+
+
+def _own_break(stmts) -> bool:
+    """a `break` that belongs to the enclosing loop"""
+    def rec(node):
+        for ch in ast.iter_child_nodes(node):
+            if isinstance(ch, ast.Break):
+                return True
+            if isinstance(ch, (ast.For, ast.While, ast.FunctionDef, ast.Lambda, ast.ClassDef)):
+                if any(isinstance(x, ast.Break) for s_ in getattr(ch, "orelse", []) for x in ast.walk(s_)):
+                    return True
+                continue
+            if rec(ch):
+                return True
+        return False
+    return any(isinstance(s_, ast.Break) or rec(s_) for s_ in stmts)
+
+
+def split_concat_loops(func):
+    """Loop fission: `for T in chain(A, B)` (also `A + B`, `[*A, *B]`, through list()/tuple(), or through a local bound just
+    before to such an expression and not changed since) is `for T in A: BODY` followed by `for T in B: BODY` -- the iterations, their
+    order and the final binding of T are the same.  Only for operands that merely re-read names (_view_pure) which the body does
+    not re-bind or mutate, and bodies without `break` / `else`.  A signed table `changes = chain(zip(repeat("-"), R), zip(repeat("+"), P))`
+    walked by one loop then reads as the two loops it abbreviates."""
+    def block(stmts, table):
+        out = []
+        table = dict(table)
+        for st in stmts:
+            if isinstance(st, ast.For) and not st.orelse and not _own_break(st.body):
+                parts = _concat_parts(st.iter)
+                if parts is None and isinstance(st.iter, ast.Name):
+                    parts = table.get(st.iter.id)
+                elif parts is not None and not all(_view_pure(p_) for p_ in parts):
+                    parts = None
+                if parts is not None:
+                    body_st = _stored(st.body) | {n.id for n in ast.walk(st.target) if isinstance(n, ast.Name)}
+                    free = set().union(*[_loaded(p_) for p_ in parts])
+                    if not (free & body_st) and not (isinstance(st.iter, ast.Name) and st.iter.id in body_st):
+                        for p_ in parts:
+                            new = ast.For(target=copy.deepcopy(st.target), iter=copy.deepcopy(p_), body=block(copy.deepcopy(st.body), table), orelse=[],
+                                          type_comment=None)
+                            ast.copy_location(new, st)
+                            ast.fix_missing_locations(new)
+                            out.append(new)
+                        continue
+            inner_st = _stored([st])
+            surviving = {k: v for k, v in table.items() if k not in inner_st and not (set().union(*[_loaded(p_) for p_ in v]) & inner_st)}
+            for fld in ("body", "orelse", "finalbody"):
+                b = getattr(st, fld, None)
+                if isinstance(b, list) and b and isinstance(b[0], ast.stmt) and not isinstance(st, (ast.FunctionDef, ast.ClassDef, ast.AsyncFunctionDef)):
+                    setattr(st, fld, block(b, surviving))
+            if isinstance(st, ast.Try):
+                for h in st.handlers:
+                    h.body = block(h.body, surviving)
+            table = surviving if not isinstance(st, (ast.Assign, ast.AnnAssign)) else {k: v for k, v in table.items() if k in surviving}
+            if isinstance(st, ast.Assign) and len(st.targets) == 1 and isinstance(st.targets[0], ast.Name):
+                parts = _concat_parts(st.value)
+                if parts is not None and all(_view_pure(p_) for p_ in parts) and st.targets[0].id not in set().union(*[_loaded(p_) for p_ in parts]):
+                    table[st.targets[0].id] = parts
+            out.append(st)
+        return out
+    func.body = block(func.body, {})
+    return func
+
+
+# ------------------------------------------------------------------------------------- generators and records put back in place
+
+def _single_yield(callee):
+    """the one `yield E` statement of a generator that can be read as `emit(E)`: reached through for / if statements only; no
+    other yield, no `yield from`, no return, not used as an expression -> the ast.Expr node, else None"""
+    if not isinstance(callee, ast.FunctionDef) or callee.args.vararg or callee.args.kwarg or callee.args.posonlyargs:
+        return None
+    ys = [n for n in ast.walk(callee) if isinstance(n, (ast.Yield, ast.YieldFrom))]
+    if len(ys) != 1 or not isinstance(ys[0], ast.Yield) or ys[0].value is None:
+        return None
+    if any(isinstance(n, (ast.Return, ast.Global, ast.Nonlocal, ast.Await)) for n in ast.walk(callee)):
+        return None
+    found = []
+
+    def rec(stmts):
+        for st in stmts:
+            if isinstance(st, ast.Expr) and st.value is ys[0]:
+                found.append(st)
+            elif isinstance(st, (ast.For, ast.If)):
+                rec(st.body)
+                rec(st.orelse)
+    rec(callee.body)
+    return found[0] if len(found) == 1 else None
+
+
+def inline_generator_loops(func, resolve):
+    """`for T in self._gen(args): BODY`, `_gen` a generator with ONE `yield E` reached through for / if only: the generator's
+    statements with `yield E` replaced by `T = E; BODY` (parameters bound to the arguments, locals made unique) -- producer and
+    consumer run interleaved in exactly this order.  resolve(call) -> (callee, receiver | None) | None.  Refused when BODY leaves
+    its iteration early (break / continue) or the loop has an `else`."""
+    def expand(stmts, depth):
+        out = []
+        for st in stmts:
+            for fld in ("body", "orelse", "finalbody"):
+                b = getattr(st, fld, None)
+                if isinstance(b, list) and b and isinstance(b[0], ast.stmt) and not isinstance(st, (ast.FunctionDef, ast.ClassDef, ast.AsyncFunctionDef)):
+                    setattr(st, fld, expand(b, depth))
+            if isinstance(st, ast.For) and not st.orelse and isinstance(st.iter, ast.Call) and depth < 3 and not _top_level_jumps(st.body):
+                r = resolve(st.iter)
+                if r is not None and r[0] is not func and _single_yield(r[0]) is not None:
+                    res = inline_stmts(r[0], st.iter, r[1])
+                    if res is not None and res[1] is None:
+                        body = res[0]
+                        ys = [n for b in body for n in ast.walk(b) if isinstance(n, ast.Expr) and isinstance(n.value, ast.Yield)]
+                        if len(ys) == 1:
+                            bind = ast.Assign(targets=[copy.deepcopy(st.target)], value=ys[0].value.value)
+                            for n in ast.walk(bind.targets[0]):
+                                if isinstance(n, (ast.Name, ast.Tuple, ast.List, ast.Starred)):
+                                    n.ctx = ast.Store()
+
+                            class Put(ast.NodeTransformer):
+                                def visit_Expr(self, n):
+                                    return [bind] + st.body if n is ys[0] else n
+                            new = []
+                            for b in body:
+                                x = Put().visit(b)
+                                new.extend(x if isinstance(x, list) else [x])
+                            for b in new:
+                                ast.copy_location(b, st) if not hasattr(b, "lineno") else None
+                                ast.fix_missing_locations(b)
+                            out.extend(expand(new, depth + 1))
+                            continue
+            out.append(st)
+        return out
+    func.body = expand(func.body, 0)
+    return func
+
+
+def scalarise_records(func, fields_of):
+    """Scalar replacement of a record: `x = Rec(a, b, c)` (fields_of("Rec") -> its field names, in constructor order, or None) whose
+    every use is a field read `x.f` becomes `x__f1 = a; x__f2 = b; x__f3 = c`, and `x.f` the local `x__f`.  A namedtuple / dataclass
+    that only carries values from a producer to a consumer then disappears, and the values are followed as before."""
+    cands = {}
+    for n in ast.walk(func):
+        if isinstance(n, ast.Assign) and len(n.targets) == 1 and isinstance(n.targets[0], ast.Name) and isinstance(n.value, ast.Call) \
+                and isinstance(n.value.func, (ast.Name, ast.Attribute)):
+            fields = fields_of(ast.unparse(n.value.func))
+            if fields:
+                cands.setdefault(n.targets[0].id, []).append((n, fields))
+    if not cands:
+        return func
+    parent_attr = {}
+    for n in ast.walk(func):
+        if isinstance(n, ast.Attribute) and isinstance(n.value, ast.Name):
+            parent_attr[id(n.value)] = n
+    for n in ast.walk(func):
+        if isinstance(n, ast.Name) and n.id in cands:
+            if isinstance(n.ctx, ast.Load):
+                a = parent_attr.get(id(n))
+                if a is None or not isinstance(a.ctx, ast.Load) or not all(a.attr in f for _, f in cands[n.id]):
+                    cands.pop(n.id)
+            elif not any(n is asg.targets[0] for asg, _ in cands[n.id]):
+                cands.pop(n.id)
+        elif isinstance(n, ast.arg) and n.arg in cands:
+            cands.pop(n.arg)
+    plan = {}
+    for name, lst in cands.items():
+        for asg, fields in lst:
+            c = asg.value
+            if any(isinstance(a, ast.Starred) for a in c.args) or any(k.arg is None or k.arg not in fields for k in c.keywords) or len(c.args) > len(fields):
+                plan = None
+                break
+            given = dict(zip(fields, c.args))
+            given.update({k.arg: k.value for k in c.keywords})
+            if set(given) != set(fields) or len(given) != len(c.args) + len(c.keywords):
+                plan = None
+                break
+            plan[id(asg)] = (name, [(f, given[f]) for f in list(fields[:len(c.args)]) + [k.arg for k in c.keywords]])
+        if plan is None:
+            return func
+
+    class Tr(ast.NodeTransformer):
+        def visit_Assign(self, n):
+            if id(n) in plan:
+                name, pairs = plan[id(n)]
+                out = [ast.copy_location(ast.Assign(targets=[ast.Name(id=f"{name}__{f}", ctx=ast.Store())], value=self.visit(v)), n) for f, v in pairs]
+                return [ast.fix_missing_locations(x) for x in out]
+            return self.generic_visit(n)
+
+        def visit_Attribute(self, n):
+            if isinstance(n.value, ast.Name) and n.value.id in cands and isinstance(n.ctx, ast.Load):
+                return ast.copy_location(ast.Name(id=f"{n.value.id}__{n.attr}", ctx=ast.Load()), n)
+            return self.generic_visit(n)
+    if plan:
+        func = Tr().visit(func)
+        ast.fix_missing_locations(func)
+    return func
+
+
+# ------------------------------------------------------------------------------------------ list of rows <-> row-major table
+
+def _flatten_call(e, m):
+    """is `e` the row-major flattening of the list of rows named m?  list(chain.from_iterable(m)) / list(chain(*m)) / sum(m, []) /
+    [x for r in m for x in r]"""
+    if isinstance(e, ast.Call) and isinstance(e.func, ast.Name) and e.func.id in ("list", "tuple") and len(e.args) == 1 and not e.keywords:
+        return _flatten_call(e.args[0], m) or _flatten_call_inner(e.args[0], m)
+    if isinstance(e, ast.Call) and isinstance(e.func, ast.Name) and e.func.id == "sum" and len(e.args) == 2 and not e.keywords \
+            and isinstance(e.args[0], ast.Name) and e.args[0].id == m and isinstance(e.args[1], ast.List) and not e.args[1].elts:
+        return True
+    if isinstance(e, ast.ListComp) and len(e.generators) == 2 and not any(g.ifs for g in e.generators) \
+            and isinstance(e.generators[0].iter, ast.Name) and e.generators[0].iter.id == m and isinstance(e.generators[0].target, ast.Name) \
+            and isinstance(e.generators[1].iter, ast.Name) and e.generators[1].iter.id == e.generators[0].target.id \
+            and isinstance(e.generators[1].target, ast.Name) and isinstance(e.elt, ast.Name) and e.elt.id == e.generators[1].target.id:
+        return True
+    return False
+
+
+def _flatten_call_inner(e, m):
+    if isinstance(e, ast.Call) and not e.keywords and len(e.args) == 1:
+        f = ast.unparse(e.func)
+        a = e.args[0]
+        if f in ("chain.from_iterable", "itertools.chain.from_iterable") and isinstance(a, ast.Name) and a.id == m:
+            return True
+        if f in ("chain", "itertools.chain") and isinstance(a, ast.Starred) and isinstance(a.value, ast.Name) and a.value.id == m:
+            return True
+    return False
+
+
+def flatten_row_tables(func):
+    """Change of representation put back: a local table kept as a list of rows
+
+        M = [[c] * NC for _ in range(NR)]  ...  M[a][b] (read, store, +=)  ...  r = M[a]; r[b] ...  F = list(chain.from_iterable(M))
+
+    is the row-major flat table `M = [c] * NR * NC`, `M[a * NC + b]`, `F` being `M` itself.  Applied only when EVERY use of M (and of
+    a row alias r, and the single binding of F) has one of these forms, NC is a name bound once, and M is not used after F was
+    cut from it (so that no write is lost); otherwise the function is left as it is."""
+    assigned = {}
+    for n in ast.walk(func):
+        if isinstance(n, ast.Name) and isinstance(n.ctx, (ast.Store, ast.Del)):
+            assigned[n.id] = assigned.get(n.id, 0) + 1
+    for a_ in func.args.args + func.args.kwonlyargs:
+        assigned[a_.arg] = assigned.get(a_.arg, 0) + 1
+    parent = {}
+    for n in ast.walk(func):
+        for ch in ast.iter_child_nodes(n):
+            parent[id(ch)] = n
+
+    def table_init(v):
+        """(cell, NR, NC) of `[[c] * NC for _ in range(NR)]` / `[[c for _ in range(NC)] for _ in range(NR)]`"""
+        if not (isinstance(v, ast.ListComp) and len(v.generators) == 1 and not v.generators[0].ifs and isinstance(v.generators[0].target, ast.Name)):
+            return None
+        g = v.generators[0]
+        if not (isinstance(g.iter, ast.Call) and isinstance(g.iter.func, ast.Name) and g.iter.func.id == "range" and len(g.iter.args) == 1 and not g.iter.keywords):
+            return None
+        nr, e = g.iter.args[0], v.elt
+        if isinstance(e, ast.BinOp) and isinstance(e.op, ast.Mult):
+            lst, nc = (e.left, e.right) if isinstance(e.left, ast.List) else (e.right, e.left)
+            if isinstance(lst, ast.List) and len(lst.elts) == 1 and isinstance(lst.elts[0], ast.Constant):
+                cell = lst.elts[0]
+            else:
+                return None
+        elif isinstance(e, ast.ListComp) and len(e.generators) == 1 and not e.generators[0].ifs and isinstance(e.elt, ast.Constant) \
+                and isinstance(e.generators[0].iter, ast.Call) and isinstance(e.generators[0].iter.func, ast.Name) and e.generators[0].iter.func.id == "range" \
+                and len(e.generators[0].iter.args) == 1:
+            cell, nc = e.elt, e.generators[0].iter.args[0]
+        else:
+            return None
+        if not (isinstance(nc, ast.Name) and isinstance(nr, ast.Name) and assigned.get(nc.id, 0) == 1 and assigned.get(nr.id, 0) == 1):
+            return None
+        if g.target.id in (nc.id, nr.id):
+            return None
+        return cell, nr, nc
+    for init in [n for n in ast.walk(func) if isinstance(n, ast.Assign) and len(n.targets) == 1 and isinstance(n.targets[0], ast.Name)]:
+        m = init.targets[0].id
+        t = table_init(init.value)
+        if t is None or assigned.get(m, 0) != 1:
+            continue
+        cell, nr, nc = t
+        uses = [n for n in ast.walk(func) if isinstance(n, ast.Name) and n.id == m and n is not init.targets[0]]
+        cells, aliases, flat = [], [], []
+        ok = True
+        for u in uses:
+            p1 = parent.get(id(u))
+            p2 = parent.get(id(p1)) if p1 is not None else None
+            if isinstance(p1, ast.Subscript) and p1.value is u and not isinstance(p1.slice, ast.Slice):
+                if isinstance(p2, ast.Subscript) and p2.value is p1 and not isinstance(p2.slice, ast.Slice):
+                    cells.append((p2, p1.slice, p2.slice))
+                    continue
+                if isinstance(p2, ast.Assign) and p2.value is p1 and len(p2.targets) == 1 and isinstance(p2.targets[0], ast.Name) \
+                        and assigned.get(p2.targets[0].id, 0) == 1 and isinstance(p1.ctx, ast.Load) \
+                        and all(assigned.get(x, 0) <= 1 for x in _loaded(p1.slice)):
+                    aliases.append((p2, p2.targets[0].id, p1.slice))
+                    continue
+            # the flattening statement  F = list(chain.from_iterable(M))
+            q = u
+            while id(q) in parent and not isinstance(parent[id(q)], ast.stmt):
+                q = parent[id(q)]
+            stq = parent.get(id(q))
+            if isinstance(stq, ast.Assign) and len(stq.targets) == 1 and isinstance(stq.targets[0], ast.Name) and assigned.get(stq.targets[0].id, 0) == 1 \
+                    and _flatten_call(stq.value, m) and stq in func.body:
+                flat.append(stq)
+                continue
+            ok = False
+            break
+        if not ok or len(flat) != 1 or not cells and not aliases:
+            continue
+        fst = flat[0]
+        fname = fst.targets[0].id
+        # nothing touches the rows after the flat copy was taken, the flat name is not used before it exists
+        later = func.body[func.body.index(fst) + 1:]
+        if any(isinstance(n, ast.Name) and n.id in {m} | {a[1] for a in aliases} for st in later for n in ast.walk(st)):
+            continue
+        earlier = func.body[:func.body.index(fst)]
+        if any(isinstance(n, ast.Name) and n.id == fname for st in earlier for n in ast.walk(st)):
+            continue
+        # every use of a row alias is r[b]
+        alias_cells = []
+        for asg, r, a in aliases:
+            for n in ast.walk(func):
+                if isinstance(n, ast.Name) and n.id == r and n is not asg.targets[0]:
+                    p1 = parent.get(id(n))
+                    if isinstance(p1, ast.Subscript) and p1.value is n and not isinstance(p1.slice, ast.Slice):
+                        alias_cells.append((p1, a, p1.slice))
+                    else:
+                        ok = False
+        if not ok:
+            continue
+
+        def flat_index(a, b):
+            return ast.BinOp(left=ast.BinOp(left=copy.deepcopy(a), op=ast.Mult(), right=ast.Name(id=nc.id, ctx=ast.Load())), op=ast.Add(), right=copy.deepcopy(b))
+        for node, a, b in cells + alias_cells:
+            node.value = ast.Name(id=m, ctx=ast.Load())
+            node.slice = flat_index(a, b)
+        init.value = ast.BinOp(left=ast.BinOp(left=ast.List(elts=[cell], ctx=ast.Load()), op=ast.Mult(), right=ast.Name(id=nr.id, ctx=ast.Load())),
+                               op=ast.Mult(), right=ast.Name(id=nc.id, ctx=ast.Load()))
+        drop = {id(asg) for asg, _, _ in aliases} | {id(fst)}
+
+        class Tr(ast.NodeTransformer):
+            def visit_Assign(self, n):
+                return None if id(n) in drop else self.generic_visit(n)
+
+            def visit_Name(self, n):
+                if n.id == fname:
+                    n.id = m
+                return n
+        func = Tr().visit(func)
+        for n in ast.walk(func):
+            for fld in ("body", "orelse", "finalbody"):
+                b = getattr(n, fld, None)
+                if isinstance(b, list) and not b and fld == "body" and isinstance(n, (ast.For, ast.While, ast.If, ast.With)):
+                    n.body = [ast.Pass()]
+        ast.fix_missing_locations(func)
+        return flatten_row_tables(func)       # (parents changed: start over for a further table)
+    return func
+
+
+def flatten_keyed_tables(func):
+    """Change of representation put back: a sparse table kept as a dict keyed by (row, column)
+
+        M = {}  ...  M[(a, b)] = M.get((a, b), c) + t  ...  if (a, b) in M: M[(a, b)] = g(M[(a, b)])  ...
+        F = [M.get((r, q), c) for r in range(NR) for q in range(NC)]
+
+    is the dense row-major table `M = [c] * NR * NC` with `M[a * NC + b] += t`, `M[a * NC + b] != c` for the membership test (an
+    entry exists iff something was added to the default), F being M itself.  Applied only when EVERY use of M has one of these
+    forms with one and the same default c, NR / NC are names bound once before M, and M is not used after F was cut from it."""
+    assigned, first_store = {}, {}
+    for i, st in enumerate(func.body):
+        for n in ast.walk(st):
+            if isinstance(n, ast.Name) and isinstance(n.ctx, (ast.Store, ast.Del)):
+                first_store.setdefault(n.id, i)
+    for n in ast.walk(func):
+        if isinstance(n, ast.Name) and isinstance(n.ctx, (ast.Store, ast.Del)):
+            assigned[n.id] = assigned.get(n.id, 0) + 1
+    params = {a.arg for a in ast.walk(func.args) if isinstance(a, ast.arg)}
+
+    def key2(k):
+        return (k.elts[0], k.elts[1]) if isinstance(k, ast.Tuple) and len(k.elts) == 2 and not any(isinstance(e, ast.Starred) for e in k.elts) else None
+
+    for fi, fst in enumerate(func.body):
+        if not (isinstance(fst, ast.Assign) and len(fst.targets) == 1 and isinstance(fst.targets[0], ast.Name) and isinstance(fst.value, ast.ListComp)
+                and len(fst.value.generators) == 2 and not any(g.ifs for g in fst.value.generators)):
+            continue
+        g0, g1 = fst.value.generators
+        rng = lambda g: g.iter.args[0] if (isinstance(g.iter, ast.Call) and isinstance(g.iter.func, ast.Name) and g.iter.func.id == "range"
+                                           and len(g.iter.args) == 1 and not g.iter.keywords and isinstance(g.target, ast.Name)) else None
+        nr, nc = rng(g0), rng(g1)
+        e = fst.value.elt
+        if nr is None or nc is None or not isinstance(nr, ast.Name) or not isinstance(nc, ast.Name):
+            continue
+        m = default = None
+        if isinstance(e, ast.Call) and isinstance(e.func, ast.Attribute) and e.func.attr == "get" and isinstance(e.func.value, ast.Name) and len(e.args) == 2 \
+                and not e.keywords and isinstance(e.args[1], ast.Constant):
+            m, k, default = e.func.value.id, key2(e.args[0]), e.args[1]
+        elif isinstance(e, ast.Subscript) and isinstance(e.value, ast.Name):
+            m, k = e.value.id, key2(e.slice)
+        else:
+            continue
+        if k is None or not all(isinstance(x, ast.Name) for x in k) or (k[0].id, k[1].id) != (g0.target.id, g1.target.id):
+            continue
+        fname = fst.targets[0].id
+        inits = [(i, st) for i, st in enumerate(func.body[:fi]) if isinstance(st, ast.Assign) and len(st.targets) == 1 and isinstance(st.targets[0], ast.Name)
+                 and st.targets[0].id == m]
+        if len(inits) != 1 or assigned.get(m, 0) != 1 or assigned.get(fname, 0) != 1 or m in params:
+            continue
+        ii, init = inits[0]
+        iv = init.value
+        if isinstance(iv, ast.Dict) and not iv.keys or (isinstance(iv, ast.Call) and ast.unparse(iv.func) == "dict" and not iv.args and not iv.keywords):
+            pass
+        elif isinstance(iv, ast.Call) and ast.unparse(iv.func).split(".")[-1] == "defaultdict" and len(iv.args) == 1 and isinstance(iv.args[0], ast.Lambda) \
+                and not iv.args[0].args.args and isinstance(iv.args[0].body, ast.Constant):
+            if default is not None and default.value != iv.args[0].body.value:
+                continue
+            default = iv.args[0].body
+        else:
+            continue
+        if default is None:
+            continue
+        for nm in (nr.id, nc.id):
+            if not (nm in params or (assigned.get(nm, 0) == 1 and first_store.get(nm, 10 ** 9) < ii)):
+                default = None
+        if default is None:
+            continue
+        if any(isinstance(n, ast.Name) and n.id == m for st in func.body[fi + 1:] for n in ast.walk(st)) or \
+                any(isinstance(n, ast.Name) and n.id == fname for st in func.body[:fi] for n in ast.walk(st)):
+            continue
+        # classify every use of M between its initialisation and the flattening
+        parent = {}
+        for st in func.body[:fi]:
+            for n in ast.walk(st):
+                for ch in ast.iter_child_nodes(n):
+                    parent[id(ch)] = n
+        plan, ok = [], True
+
+        def flat(k_):
+            return ast.BinOp(left=ast.BinOp(left=copy.deepcopy(k_[0]), op=ast.Mult(), right=ast.Name(id=nc.id, ctx=ast.Load())), op=ast.Add(), right=copy.deepcopy(k_[1]))
+        for st in func.body[:fi]:
+            for u in [n for n in ast.walk(st) if isinstance(n, ast.Name) and n.id == m and n is not init.targets[0]]:
+                p1 = parent.get(id(u))
+                p2 = parent.get(id(p1)) if p1 is not None else None
+                if isinstance(p1, ast.Subscript) and p1.value is u and key2(p1.slice) is not None:
+                    plan.append(("sub", p1, key2(p1.slice)))
+                elif isinstance(p1, ast.Attribute) and p1.attr == "get" and isinstance(p2, ast.Call) and p2.func is p1 and len(p2.args) == 2 and not p2.keywords \
+                        and key2(p2.args[0]) is not None and isinstance(p2.args[1], ast.Constant) and p2.args[1].value == default.value:
+                    plan.append(("get", p2, key2(p2.args[0])))
+                elif isinstance(p1, ast.Compare) and len(p1.ops) == 1 and isinstance(p1.ops[0], (ast.In, ast.NotIn)) and p1.comparators[0] is u and key2(p1.left) is not None:
+                    plan.append(("in", p1, key2(p1.left)))
+                else:
+                    ok = False
+        if not ok or not plan:
+            continue
+        for kind, node, k_ in plan:
+            if kind == "sub":
+                node.slice = flat(k_)
+            elif kind == "get":
+                new = ast.Subscript(value=ast.Name(id=m, ctx=ast.Load()), slice=flat(k_), ctx=ast.Load())
+                par = parent[id(node)]
+                for fld, val in ast.iter_fields(par):
+                    if val is node:
+                        setattr(par, fld, new)
+                    elif isinstance(val, list):
+                        for j, x in enumerate(val):
+                            if x is node:
+                                val[j] = new
+            else:
+                negate = isinstance(node.ops[0], ast.NotIn)
+                node.left = ast.Subscript(value=ast.Name(id=m, ctx=ast.Load()), slice=flat(k_), ctx=ast.Load())
+                node.ops = [ast.Eq() if negate else ast.NotEq()]
+                node.comparators = [ast.Constant(value=default.value)]
+        init.value = ast.BinOp(left=ast.BinOp(left=ast.List(elts=[ast.Constant(value=default.value)], ctx=ast.Load()), op=ast.Mult(), right=ast.Name(id=nr.id, ctx=ast.Load())),
+                               op=ast.Mult(), right=ast.Name(id=nc.id, ctx=ast.Load()))
+        del func.body[fi]
+        func.body[fi:] = [_Rename({fname: m}).visit(b) for b in func.body[fi:]]
+        ast.fix_missing_locations(func)
+        return flatten_keyed_tables(func)
+    return func
+
+
+# ----------------------------------------------------------------------------------------------------------- copy coalescing
+
+def coalesce_copies(func):
+    """Copy coalescing at the top level of a function: `A = x` / `A, B = x, y` where the local x is not used afterwards and the name A
+    does not occur before, is the same program with x spelled A from the start (the copy statement disappears).  This is what is
+    left of `A, B = self._stage(..)` after the stage was inlined: the tables the stage built and returned are the caller's tables."""
+    params = {a.arg for a in ast.walk(func.args) if isinstance(a, ast.arg)}
+    changed = True
+    while changed:
+        changed = False
+        for i, st in enumerate(func.body):
+            if not (isinstance(st, ast.Assign) and len(st.targets) == 1):
+                continue
+            t, v = st.targets[0], st.value
+            if isinstance(t, ast.Name) and isinstance(v, ast.Name):
+                pairs = [(t.id, v.id)]
+            elif isinstance(t, (ast.Tuple, ast.List)) and isinstance(v, (ast.Tuple, ast.List)) and len(t.elts) == len(v.elts) \
+                    and all(isinstance(x, ast.Name) for x in list(t.elts) + list(v.elts)):
+                pairs = [(a.id, b.id) for a, b in zip(t.elts, v.elts)]
+            else:
+                continue
+            srcs, dsts = [b for _, b in pairs], [a for a, _ in pairs]
+            if len(set(srcs)) != len(srcs) or len(set(dsts)) != len(dsts) or set(srcs) & set(dsts) or set(srcs) & params:
+                continue
+            before = {n.id for b in func.body[:i] for n in ast.walk(b) if isinstance(n, ast.Name)} | \
+                     {n.name for b in func.body[:i] for n in ast.walk(b) if isinstance(n, (ast.FunctionDef, ast.ClassDef))}
+            after = {n.id for b in func.body[i + 1:] for n in ast.walk(b) if isinstance(n, ast.Name)}
+            if set(dsts) & (before | params) or set(srcs) & after or not set(srcs) <= before:
+                continue
+            if any(isinstance(n, (ast.Global, ast.Nonlocal)) for n in ast.walk(func)):
+                continue
+            ren = dict(zip(srcs, dsts))
+            func.body[:i] = [_Rename(ren).visit(b) for b in func.body[:i]]
+            del func.body[i]
+            changed = True
+            break
+    return func
+
+
 def normalize_function(func, tables: dict | None = None):
     """the local normalisations (no knowledge of other functions needed); `tables`: module-level literal tables (module_tables)"""
     try:
+        inline_method_aliases(func)
         specialise_dispatch(func)
         inline_local_defs(func)
         index_loops_to_enumerate(func)
